@@ -138,7 +138,37 @@ fn g_bound(src: &mut Src, obs: &mut Obs) -> CaseResult {
             ))
         }
     }
-    let msg = message(b.cmd, &model);
+    // list-element members: vary the OTHER member of the probed entry and the order in which the
+    // entry's members are encoded (a limit must not depend on either)
+    let mut type_first = false;
+    if b.path.len() == 3 && matches!(b.path.get(1), Some(Step::Index(_))) && b.cmd == CMD_MC && b.name.starts_with("pubKeyCredParams") {
+        let variant = src.below(4);
+        let is_alg = b.name.ends_with(".alg");
+        if variant == 1 || variant == 3 {
+            let sibling = if is_alg { Value::text(*src.pick(&["private-key", "public-key2", "", "x"])) } else { Value::int(*src.pick(&[-257i64, 0, -9, 1])) };
+            let mut sp = b.path.clone();
+            sp[2] = Step::Key(Value::text(if is_alg { "type" } else { "alg" }));
+            if let Some(slot) = mutate::get_mut(&mut model, &sp) {
+                *slot = sibling;
+            }
+            obs.label("element-variant:sibling-unknown");
+        }
+        if variant >= 2 {
+            type_first = true;
+            obs.label("element-variant:type-first-order");
+        }
+    }
+    let msg = if type_first {
+        let mut m = refcbor::canonicalize(&model);
+        if let Some(Value::Map(e)) = mutate::get_mut(&mut m, &b.path[..2]) {
+            e.reverse();
+        }
+        let mut out = vec![b.cmd];
+        out.extend_from_slice(&refcbor::encode(&m));
+        out
+    } else {
+        message(b.cmd, &model)
+    };
     obs.labelf(format!("member:{}:{}", cmd_name(b.cmd), b.name));
     obs.labelf(format!("probe:{}", pname));
     obs.nontrivial(&[&msg]);
@@ -146,6 +176,11 @@ fn g_bound(src: &mut Src, obs: &mut Obs) -> CaseResult {
     obs.sample_with(|| json!({"member": b.name, "command": cmd_name(b.cmd), "probe": pname, "value": refcbor::show(&new), "message_len": msg.len(),
         "expect": if accepted || b.lossy_drop {"accepted"} else {"0x12"}}));
     let case = || json!({"member": b.name, "command": cmd_name(b.cmd), "probe": pname, "value": refcbor::show(&new), "input_hex": hex(&msg)});
+    if (accepted || b.lossy_drop) && type_first && c04::status_of(&msg).is_some() {
+        // a decoder may insist on canonical member order; only what it accepts is judged
+        obs.label("element-variant:type-first-order:rejected");
+        return Ok(());
+    }
     if accepted || b.lossy_drop {
         // accepted (or documented lossy drop): Ok, and every member - this one included - delivered whole
         c01::check_message(b.cmd, &model, &msg).map_err(|(_, m)| {
@@ -202,7 +237,7 @@ pub fn gens() -> Vec<Gen> {
     vec![G_BOUND, G_CONCRETE]
 }
 
-pub const RULE: &str = "The limit table of the statement (user id 64, rp id 256, user icon 128 lossy, parameter type 32, allow list 10, exclude list 16, hmac-secret salt 80 / salt auth 32, COSE x/y 32, rpIdHash exactly 32, u8 and u32 integer members, alg in i32) located in every command that carries the member. Exhaustive over (member, probe point): lengths/counts cap-1, cap, cap+1, far beyond, empty; integers 0, max-1, max, max+1, 2^32, 2^63, 2^64-1 and the negative counterparts for alg; each probe embedded in an otherwise valid message with every optional member present and random contents (proptest). Oracle: within the limit -> accepted and EVERY member of the decoded request equals what was sent (the C01 oracle, so the probed value is delivered whole: not shortened, wrapped, sign-changed or clamped); beyond -> InvalidCbor, except the user icon which is dropped while the request is accepted. Every case sits on a boundary; distinct by message bytes.";
+pub const RULE: &str = "The limit table of the statement (user id 64, rp id 256, user icon 128 lossy, parameter type 32, allow list 10, exclude list 16, hmac-secret salt 80 / salt auth 32, COSE x/y 32, rpIdHash exactly 32, u8 and u32 integer members, alg in i32) located in every command that carries the member. Exhaustive over (member, probe point): lengths/counts cap-1, cap, cap+1, far beyond, empty; integers 0, max-1, max, max+1, 2^32, 2^63, 2^64-1 and the negative counterparts for alg; each probe embedded in an otherwise valid message with every optional member present and random contents (proptest); list-element members (pubKeyCredParams type / alg) are probed at positions 0, 2 and 5 (the later ones behind two known algorithms), with the entry's other member known or unknown, and with the entry's members encoded in canonical or in type-first order (for the latter only what the decoder accepts is judged). Oracle: within the limit -> accepted and EVERY member of the decoded request equals what was sent (the C01 oracle, so the probed value is delivered whole: not shortened, wrapped, sign-changed or clamped); beyond -> InvalidCbor, except the user icon which is dropped while the request is accepted. Every case sits on a boundary; distinct by message bytes.";
 pub const ASSUMPTIONS: &[&str] = &["limit table transcribed from the property statement / CTAP specification (reqmodel::bounds)"];
 
 pub fn run(ctx: &mut Ctx) {
@@ -217,5 +252,5 @@ pub fn run(ctx: &mut Ctx) {
         }
     }
     ctx.exhaustive.push(format!("all {} (command, member) bounds x all probe points", bs.len()));
-    ctx.require(&["probe:cap", "probe:cap+1", "probe:cap-1", "probe:far-beyond", "probe:max", "probe:max+1", "probe:2^63", "probe:min", "probe:min-1", "probe:exact", "probe:exact+1", "probe:exact-1"]);
+    ctx.require(&["probe:cap", "probe:cap+1", "probe:cap-1", "probe:far-beyond", "probe:max", "probe:max+1", "probe:2^63", "probe:min", "probe:min-1", "probe:exact", "probe:exact+1", "probe:exact-1", "element-variant:sibling-unknown", "element-variant:type-first-order"]);
 }
